@@ -8,6 +8,7 @@ CONSTANTS
   Split = FALSE
   PeekStop = FALSE
   WireGaps = FALSE
+  CutStop = FALSE
 SPECIFICATION Spec
 INVARIANT NoPanic
 CHECK_DEADLOCK TRUE
